@@ -17,6 +17,8 @@ def sel_value(o):
     """Selector / count as (is_some, 32-bit term)."""
     is_some, n = o
     nv = n.v if type(n) is Int else n
+    if nv is None:
+        nv = 0
     if isinstance(nv, int):
         nv = z3.BitVecVal(nv, 32)
     return to_z3bool(is_some), nv
@@ -82,6 +84,11 @@ def path_api(ctx, job, box):
     opts = remote_opts(cols, lines) if job.params.get('remote') else {'cursor': 'pick'}
     run = GridRun(ctx, box, cols, lines, tabstops=1, savepoints=0, **opts)
     o = sym_opt_u32(ctx, 'a')
+    if job.params.get('remote') and cols * lines > 400 and op == 'erase_characters':
+        # very wide row: the count is one of a few values around the boundaries (chosen by the solver)
+        is_some, nn = opt_parts(o)
+        ctx.assume(z3.Or([nn.v == v for v in (0, 1, 2, 255, 256, 257, cols - 1, cols, cols + 1, 9999)]))
+        o = some(Int('u32', ctx.concretize(nn.v))) if ctx.branch(to_z3bool(is_some)) else NONE
     if op == 'erase_characters':
         run.call(op, o)
     else:
